@@ -24,7 +24,7 @@ fn main() {
         std::process::exit(if ok { 0 } else { 1 });
     }
     match wl.as_str() {
-        "C01" | "C05" | "C06" | "C10" | "C13" | "C15" => vcore::props::sessions::run(&wl, &args, &mut rep),
+        "C01" | "C05" | "C06" | "C10" | "C11" | "C13" | "C15" | "C16" => vcore::props::sessions::run(&wl, &args, &mut rep),
         "C02-direct" => vcore::props::c02::run_direct(&args, &mut rep),
         "C02-cli" => vcore::props::c02::run_cli(&args, &mut rep),
         "C02-accept" => vcore::props::c02::run_accept(&args, &mut rep),
